@@ -248,6 +248,27 @@ Definition supply_order_check : bool :=
 Example supply_order_refuted_without_coherent : supply_order_check = true.
 Proof. vm_compute. reflexivity. Qed.
 
+(* ... and it is satisfiable with overrides that are not None: [>=1 (True); >=1.0 (True); <3 (False)] is coherent, and both supply orders
+   give the same .prereleases and the same answer on 2.0a1 *)
+Definition coherent_check : bool :=
+  let a := {| m_sp := {| sp_op := OGe; sp_text := [49] |}; m_ov := Some true |} in
+  let b := {| m_sp := {| sp_op := OGe; sp_text := [49;46;48] |}; m_ov := Some true |} in
+  let c := {| m_sp := {| sp_op := OLt; sp_text := [51] |}; m_ov := Some false |} in
+  m_eqb a b && negb (m_eqb a c) &&
+  match set_pre (SpecifierSet_of [a; b; c] None), set_pre (SpecifierSet_of [c; b; a] None),
+        set_contains (SpecifierSet_of [a; b; c] None) None None [50;46;48;97;49], set_contains (SpecifierSet_of [c; b; a] None) None None [50;46;48;97;49] with
+  | Some true, Some true, Ans true, Ans true => true
+  | _, _, _, _ => false
+  end.
+Example coherent_nonvacuous : coherent_check = true.
+Proof. vm_compute. reflexivity. Qed.
+Example coherent_instance :
+  coherent [{| m_sp := {| sp_op := OGe; sp_text := [49] |}; m_ov := Some true |}; {| m_sp := {| sp_op := OGe; sp_text := [49;46;48] |}; m_ov := Some true |};
+            {| m_sp := {| sp_op := OLt; sp_text := [51] |}; m_ov := Some false |}].
+Proof.
+  intros x y [<-|[<-|[<-|[]]]] [<-|[<-|[<-|[]]]]; cbn [m_ov]; intros E; auto; vm_compute in E; discriminate.
+Qed.
+
 Print Assumptions set_str_sorted.
 Print Assumptions set_str_supply_order.
 Print Assumptions supply_order_behaviour.
